@@ -684,13 +684,13 @@ theorem runLoop_append (m : Bytes) (cap : Nat) : ∀ (rs rs' : List Recv) (st : 
       | more => simp only; exact ih rs' st1
       | response r e => simp
       | framingError k => simp
-      | closedEarly => simp
+      | failed f => simp
 
 /-- what the loop returns when the peer closes after the observed framing result -/
 def closeOut : Obs → LoopOut
   | .more s =>
     if s.headersDone ∧ s.framing.mode = .closeDelimited then .response { s.resp with body := s.data.drop s.bodyStart } true
-    else .closedEarly
+    else .failed .closedEarly
   | .done r e => .response r e
   | .bad k => .framingError k
 
@@ -724,7 +724,7 @@ theorem Rel_close (m : Bytes) (cap : Nat) (res : St × LoopOut) (o : Obs) (h : R
     | more s => simp [Rel] at h
     | done r' e' => simp [Rel] at h
     | bad k' => simp only [Rel] at h; simp [closeOut, SameOutcome, h]
-  | closedEarly => cases o <;> simp [Rel] at h
+  | failed f => cases o <;> simp [Rel] at h
 
 /-! ### invalid length information is rejected (characterisation of acceptance) -/
 
